@@ -71,6 +71,11 @@ CLAIMED = {
              'one processing step from an arbitrary smoothed-gain state (private state set by the harness): between old state and target, <= 0 dB, equal to the static curve for zero attack/release, outputs are pow(10,g/20) and x*gain; '
              'NoiseGate one step from an arbitrary (gain, hold counter) state: gain in [0,1], hold semantics; Agc: on every path the applied log-gain is <= log(10^(max_gain/20)).',
              note='Absolute slack 1e-9 for rounded coefficients; axioms pow10(g/20) in (0,1] for g <= 0 and exp monotone translate the dB/log-domain invariants; Agc convergence and time-constant calibration not decided.'),
+ 'C17': dict(design='4/C17', text='PARTIAL. Decided: integer arange with stop symbolic in [-12,12] and (start, step) enumerated (5x10 quick, all 25x24 thorough): count and every value equal python range on every path (the '
+             'int->double->round->int chain modelled with integer-part semantics); upsample / downsample / zeropad / delayseq / flip / repelem with symbolic factor, phase, length or delay and symbolic elements: exactly the designated '
+             'elements (same terms), zeros elsewhere, documented length, throw only outside the documented range; sum, mean, rms, stddev, norm 1/2, dot, cumsum, abs2 and the complex variants as real-arithmetic identities; '
+             'min / max / argmin / argmax / peak2peak on every comparison path; linspace affine with exact end points; complex/real+imag and conj round trips; angle at the axes / signed-zero special points.',
+             note='NOT decided (stated as outside): every "libm value within a few ulp" clause (exp, log*, pow, tanh, expj, dB conversions, angle away from the special points) and inverse pairs through pow/log10 - transcendental accuracy at arbitrary arguments has no decision procedure in the tools present.'),
 }
 ALL = [json.loads(l)['id'] for l in open(os.path.join(V, 'properties.jsonl'))]
 NA_REASON = {}
